@@ -162,3 +162,9 @@ Example C10_ex_can_paste :
   can_paste cdef (mkAff (5#2) 0 6 0 (-(5#2)) 9) (1#1000) (1#20) = Ok false /\
   tol_ok cdef (1#1000).
 Proof. repeat split; try (vm_compute; reflexivity); unfold half; cbn; auto with qarith; discriminate. Qed.
+
+(** Tie to the source: the definitions regenerated by tools/py2v from the current odc/geo/overlap.py and odc/geo/math.py (coq/Gen/MathGen.v, rewritten on every run) are the model (Model/Overlap.v) the theorems above are stated on, up to the error kind. *)
+From OG Require Proofs.MathGenEquivO.
+Theorem C10_source_is_model : OG.Proofs.MathGenEquivO.overlap_source_is_model.
+Proof. exact OG.Proofs.MathGenEquivO.overlap_source_is_model_holds. Qed.
+Print Assumptions C10_source_is_model.
